@@ -46,7 +46,7 @@ impl Profile for EntryPointTwin {
             } else {
                 let h = e.spec.of_kind(Kind::Instantiate).next().unwrap();
                 let args = gen_args(rng, h.args, &pool_a, None);
-                (Doc::json(&Value::Object(args.clone())), Some(Intent { hid: h.id(), args: Value::Object(args) }))
+                (Doc::json(&Value::Object(args.clone())), Some(Intent { hid: h.id(), args: Value::Object(args), cid: String::new() }))
             };
             setup.push(Op::Instantiate { code: i, sender: addrs[0].clone(), msg, label: format!("c{i}"), admin: Some(addrs[3].clone()), funds: vec![], salt: None, intent });
         }
@@ -97,7 +97,7 @@ impl Profile for EntryPointTwin {
                     };
                     let script = serde_json::to_value(Script(vec![Step::Send(send)])).unwrap();
                     let args = json!({"script": script});
-                    ops.push(Op::Exec { target: c.addr.clone(), sender: rng.pick(accounts).clone(), msg: Doc::json(&json!({"go": args})), funds: vec![], intent: Some(Intent { hid: "execute::go".into(), args }) });
+                    ops.push(Op::Exec { target: c.addr.clone(), sender: rng.pick(accounts).clone(), msg: Doc::json(&json!({"go": args})), funds: vec![], intent: Some(Intent { hid: "execute::go".into(), args, cid: String::new() }) });
                 }
                 Kind::Instantiate => {
                     let code = rng.below(wp.codes.len() as u64) as usize;
@@ -107,7 +107,7 @@ impl Profile for EntryPointTwin {
                     } else {
                         let h = pe.spec.of_kind(Kind::Instantiate).next().unwrap();
                         let args = sg.args_for(rng, pe.spec.cid, h, 0);
-                        (Doc::json(&doc_for(h, &args)), Some(Intent { hid: h.id(), args: Value::Object(args) }))
+                        (Doc::json(&doc_for(h, &args)), Some(Intent { hid: h.id(), args: Value::Object(args), cid: String::new() }))
                     };
                     ops.push(Op::Instantiate { code, sender: rng.pick(accounts).clone(), msg, label: format!("i{}", sg.nonce()), admin: None, funds: vec![], salt: None, intent });
                 }
@@ -119,7 +119,7 @@ impl Profile for EntryPointTwin {
                         ops.push(Op::Migrate { target: c.addr.clone(), sender, code, msg: Doc::json(&ov_doc(rng)), intent: None });
                     } else if let Some(h) = e.spec.of_kind(Kind::Migrate).next() {
                         let args = sg.args_for(rng, &c.cid, h, 0);
-                        ops.push(Op::Migrate { target: c.addr.clone(), sender, code, msg: Doc::json(&doc_for(h, &args)), intent: Some(Intent { hid: h.id(), args: Value::Object(args) }) });
+                        ops.push(Op::Migrate { target: c.addr.clone(), sender, code, msg: Doc::json(&doc_for(h, &args)), intent: Some(Intent { hid: h.id(), args: Value::Object(args), cid: String::new() }) });
                     } else {
                         // no migrate handler and no override: the chain must get an error in both worlds
                         ops.push(Op::Migrate { target: c.addr.clone(), sender, code, msg: Doc::json(&json!({})), intent: None });
@@ -132,7 +132,7 @@ impl Profile for EntryPointTwin {
                         let hs: Vec<&HandlerSpec> = e.spec.of_kind(kind).collect();
                         let h = *rng.pick(&hs);
                         let args = sg.args_for(rng, &c.cid, h, 0);
-                        (Doc::json(&doc_for(h, &args)), Some(Intent { hid: h.id(), args: Value::Object(args) }))
+                        (Doc::json(&doc_for(h, &args)), Some(Intent { hid: h.id(), args: Value::Object(args), cid: String::new() }))
                     };
                     ops.push(match kind {
                         Kind::Exec => Op::Exec { target: c.addr.clone(), sender: rng.pick(accounts).clone(), msg, funds: vec![], intent },
